@@ -3,8 +3,7 @@ import Driver.Util
 /-! `durfmt`, `durparse`, `oneliner`, `parseflow`, `yquote` ops (C17). Text travels as hex of its
 UTF-8 bytes. A config is `os;kc;to;de;sk;sa;wait;env` with `-` for unset. -/
 open Scrut Scrut.Dur Scrut.Yaml
-namespace Driver
-
+namespace Driver.YamlOps
 def textOfHex (s : String) : Option (List Char) := do
   let bs ← unhex s
   let str ← String.fromUTF8? (ByteArray.mk bs.toArray)
@@ -146,4 +145,4 @@ def opYQuote (args : List String) : String :=
     | none => "bad-op"
   | _ => "bad-op"
 
-end Driver
+end Driver.YamlOps
